@@ -70,18 +70,19 @@ func toModelTx(tx pb.Transaction) model.PoolTx {
 type poolViol struct{ sig, detail string }
 
 type poolRun struct {
-	prop    string
-	cfg     poolCfg
-	pool    mempool.MemPool
-	m       *model.Pool
-	ledger  map[string]uint64
-	seq     uint64
-	ops     []poolOp
-	batches [][]pb.Transaction // generated, not yet committed
-	viols   []poolViol
-	stats   map[string]int64
-	shape   map[string]bool
-	foreign []string // keys of txs committed by blocks produced elsewhere, never given to the pool before
+	prop      string
+	cfg       poolCfg
+	pool      mempool.MemPool
+	m         *model.Pool
+	ledger    map[string]uint64
+	seq       uint64
+	ops       []poolOp
+	batches   [][]pb.Transaction // generated, not yet committed
+	viols     []poolViol
+	stats     map[string]int64
+	shape     map[string]bool
+	foreign   []string   // keys of txs committed by blocks produced elsewhere, never given to the pool before
+	announced [][]string // blocks minted elsewhere that were announced (MarkBatched) and are not committed yet
 	// C19, a few flagged cases: one op that needs real elapsed time (see "supersede-evict")
 	timing, timingDone bool
 	protect            string // hash of a tx the eviction just observed must not have taken
@@ -260,6 +261,39 @@ func (pr *poolRun) apply(op poolOp) {
 		pr.pool.CommitTransactions(&mempool.ChainState{Height: pr.seq, TxHashList: hashes})
 		pr.stats["commits"]++
 		pr.observe(false)
+	case "announce":
+		var txs []pb.Transaction
+		var mt []model.PoolTx
+		for _, k := range op.Txs {
+			tx := mkPoolTx(k)
+			txs = append(txs, tx)
+			mt = append(mt, toModelTx(tx))
+		}
+		pr.m.Given(mt) // a batch that later contains them is not "unknown"; batching them again is a repeat
+		pr.pool.MarkBatched(txs)
+		pr.m.MarkBatched(mt)
+		pr.announced = append(pr.announced, op.Txs)
+		pr.stats["foreign_blocks_announced"]++
+		pr.observe(false)
+	case "commit-announced":
+		if len(pr.announced) == 0 {
+			break
+		}
+		blk := pr.announced[0]
+		pr.announced = pr.announced[1:]
+		var hashes []*types.Hash
+		for _, k := range blk {
+			tx := mkPoolTx(k)
+			hashes = append(hashes, tx.GetHash())
+			pr.m.CommitForeign(tx.GetFrom().String(), tx.GetNonce()+1)
+			pr.foreign = append(pr.foreign, k)
+		}
+		for _, a := range pr.m.Accounts() {
+			pr.ledger[a] = pr.m.Commit(a)
+		}
+		pr.pool.CommitTransactions(&mempool.ChainState{Height: pr.seq, TxHashList: hashes})
+		pr.stats["announced_blocks_committed"]++
+		pr.observe(false)
 	case "foreign":
 		// a block produced by another node with txs this pool was never given: the ledger advances first
 		// (the executor persists before it reports), then the commit notification arrives
@@ -422,6 +456,13 @@ func (pr *poolRun) gen(r *rand.Rand, nAcct int, ts *int64, known map[string]stri
 			case 1:
 				t = 1000 // many equal timestamps
 			}
+			if len(pr.announced) > 0 && r.Intn(3) == 0 {
+				// a transaction of a block that was announced (minted elsewhere) but is not committed yet arrives now
+				blk := pr.announced[r.Intn(len(pr.announced))]
+				op.Txs = append(op.Txs, blk[r.Intn(len(blk))])
+				op.Note = "late-arrival-of-announced-tx"
+				continue
+			}
 			if len(pr.foreign) > 0 && r.Intn(7) == 0 {
 				// a client re-sends a tx that a block produced elsewhere has already committed
 				op.Txs = append(op.Txs, pr.foreign[r.Intn(len(pr.foreign))])
@@ -438,6 +479,9 @@ func (pr *poolRun) gen(r *rand.Rand, nAcct int, ts *int64, known map[string]stri
 		}
 		op.Leader = r.Intn(3) != 0
 		op.Local = r.Intn(2) == 0
+	case x < 51 && len(pr.announced) > 0 && r.Intn(2) == 0:
+		op.Op = "commit-announced"
+		op.Note = "commit-announced"
 	case x < 51:
 		op.Op = "foreign"
 		acct := r.Intn(nAcct)
@@ -450,6 +494,10 @@ func (pr *poolRun) gen(r *rand.Rand, nAcct int, ts *int64, known map[string]stri
 		}
 		op.Note = "commit-foreign"
 		op.Arg = int64(r.Intn(2))
+		if len(pr.announced) == 0 && pr.m.Next(addr) <= base && r.Intn(3) == 0 {
+			// only announced for now (MarkBatched, as when a follower mints the block); the commit follows later
+			op.Op, op.Note = "announce", "announce-foreign"
+		}
 		if pr.m.Next(addr) > base {
 			op.Note = "commit-foreign-over-own-batch"
 		}
@@ -524,6 +572,14 @@ func (pr *poolRun) gen(r *rand.Rand, nAcct int, ts *int64, known map[string]stri
 		op.Op = "setseq"
 		op.Arg = int64(pr.seq) + int64(r.Intn(3))
 		op.Note = "setseq"
+		if r.Intn(2) == 0 && pr.seq > 0 {
+			// back to a lower number: a leader whose last batches were never ordered is reset to the executed height
+			op.Arg = int64(pr.seq) - int64(1+r.Intn(2))
+			if op.Arg < 0 {
+				op.Arg = 0
+			}
+			op.Note = "setseq-lower"
+		}
 	default:
 		op.Op = "restart"
 		op.Note = "restart"
